@@ -172,6 +172,8 @@ def handleImpl (inp out : List String) : String :=
     let tie := RI.envelopesMeet a b &&
       !(selfComplete ar fa0 fa.edges && selfComplete ar fb0 fb.edges && mutualComplete ar fa fb ma.edges mb.edges)
     if tie then skip "near-tie:intersection-key-collision" else
+    -- subnormal coordinates: `robust::orient2d` is not exact there (K10), the model's orientation is
+    if ab != model && underflowRange (coordsIter a ++ coordsIter b) then skip "underflow-range:orientation-inexact" else
     let exactModel := RI.relateImpl? a b
     let dom := inDomain a && inDomain b
     let prop :=
